@@ -35,10 +35,13 @@ type Ext struct {
 	WrongEst map[string]bool `json:"wrong_establish"`
 	// SelfKill: target id -> the command's shell dies from a SIGKILL it sends itself
 	SelfKill map[string]bool `json:"self_kill"`
+	// Soft: target id -> the command runs to its end and then fails through a final `a && b` list whose left side is
+	// false (a non-zero status that does not trip `set -e`)
+	Soft map[string]bool `json:"soft_fail,omitempty"`
 }
 
 func NewExt() Ext {
-	return Ext{Markers: map[string]string{}, Fail: map[string]bool{}, SlowSec: map[string]int{}, SkipOut: map[string]int{}, NoEstab: map[string]bool{}, WrongEst: map[string]bool{}, SelfKill: map[string]bool{}}
+	return Ext{Markers: map[string]string{}, Fail: map[string]bool{}, SlowSec: map[string]int{}, SkipOut: map[string]int{}, NoEstab: map[string]bool{}, WrongEst: map[string]bool{}, SelfKill: map[string]bool{}, Soft: map[string]bool{}}
 }
 
 // tolerateModeSwitch: until the fix "compute the same output hash whether or not a target's result is cached" the
@@ -123,6 +126,9 @@ func trimSpace(s string) string {
 // It also returns the marker updates the command performs before any failure point.
 func executionFails(t *Target, ext Ext) (fails bool, markers map[string]string) {
 	markers = map[string]string{}
+	if t.NoCommand {
+		return false, markers
+	}
 	id := t.ID()
 	if t.Timeout != "" {
 		if d, err := time.ParseDuration(t.Timeout); err == nil {
@@ -132,7 +138,7 @@ func executionFails(t *Target, ext Ext) (fails bool, markers map[string]string) 
 			}
 		}
 	}
-	if ext.SelfKill[id] || ext.Fail[id] {
+	if ext.SelfKill[id] || ext.Fail[id] || ext.Soft[id] {
 		return true, markers
 	}
 	// the command runs to completion: markers are established
@@ -248,6 +254,9 @@ func (m *Model) Predict(w WS, o BuildOpts) Prediction {
 			v = May
 			p.Uncertain = true
 			maybeFailed[l] = true // possibly skipped: its own dependants inherit the doubt
+		}
+		if t.NoCommand {
+			v = May // nothing observable happens for a grouping target
 		}
 		p.Verdict[l] = v
 		fails, established := executionFails(t, ext)
